@@ -352,7 +352,7 @@ func expected(sp credgen.Spec, v credgen.View, o credgen.Opts) expect {
 			flags += 2
 		}
 	}
-	if v.Exp != nil {
+	if sp.Expiration != nil {
 		flags += 8
 	}
 	if o.Upd {
@@ -372,8 +372,10 @@ func expected(sp credgen.Spec, v credgen.View, o credgen.Opts) expect {
 	e.slots[0].Add(schema, new(big.Int).Lsh(big.NewInt(flags), 128))
 	e.slots[0].Add(e.slots[0], new(big.Int).Lsh(new(big.Int).SetUint64(uint64(o.Version)), 160))
 	e.slots[4].SetUint64(o.RevNonce)
-	if v.Exp != nil {
-		x := new(big.Int).Mod(big.NewInt(*v.Exp), two64)
+	if sp.Expiration != nil {
+		// the spec: expiration = Unix seconds of the instant, i.e. the floor; the generator wrote the
+		// date from (seconds, nanoseconds), so it knows the seconds without parsing anything
+		x := new(big.Int).Mod(big.NewInt(*sp.Expiration), two64)
 		e.slots[4].Add(e.slots[4], x.Lsh(x, 64))
 	}
 	if id != nil {
@@ -629,11 +631,20 @@ func (g *gen) buildPool() pool {
 	var p pool
 	e := g.env
 	subjects := []any{nil, credgen.MakeDID(1), credgen.MakeDID(2)}
-	exps := []*int64{nil, i64(1893456000), i64(-31536000), i64(0)}
+	type expT struct {
+		sec   *int64
+		nanos int64
+		off   int
+	}
+	// whole seconds, then instants with a fraction (.5 .75 .999999999 and .4 as control; zone offsets;
+	// before 1970, where Unix() floors: -1.5 s has Unix second -2)
+	exps := []expT{{nil, 0, 0}, {i64(1893456000), 0, 0}, {i64(-31536000), 0, 0}, {i64(0), 0, 0},
+		{i64(1893456000), 500000000, 0}, {i64(1893456000), 750000000, 120}, {i64(1893456000), 999999999, -330}, {i64(1893456000), 400000000, 60},
+		{i64(-31536000), 500000000, 0}, {i64(-1), 999999999, 0}, {i64(-2), 500000000, 60}, {i64(0), 999000000, -720}, {i64(4102444799), 500000001, 0}}
 	ms := e.NewSchema(nil)
 	for _, s := range subjects {
 		for _, x := range exps {
-			p.merk = append(p.merk, credgen.Spec{Schema: ms, Subject: s, Expiration: x})
+			p.merk = append(p.merk, credgen.Spec{Schema: ms, Subject: s, Expiration: x.sec, ExpNanos: x.nanos, ExpOffsetMin: x.off})
 		}
 	}
 	// serialized: all 2^4 subsets of slots, each slot naming a distinct field
@@ -655,7 +666,10 @@ func (g *gen) buildPool() pool {
 				if (si+xi+mask)%3 != 0 && !(mask == 15) {
 					continue // every subset with a third of the subject/expiration combinations, the full subset with all
 				}
-				p.ser = append(p.ser, credgen.Spec{Schema: ss, Subject: s, Expiration: x})
+				if xi >= 4 && mask != 15 && (mask+xi)%4 != 0 {
+					continue // fractional instants: on the full subset, and on a quarter of the others
+				}
+				p.ser = append(p.ser, credgen.Spec{Schema: ss, Subject: s, Expiration: x.sec, ExpNanos: x.nanos, ExpOffsetMin: x.off})
 			}
 		}
 	}
@@ -749,7 +763,7 @@ func (g *gen) gridStream(p pool) {
 		}
 	} else {
 		// the whole grid on one merklized and one fully serialized credential with subject and expiration
-		full[5] = true
+		full[17] = true // subject id, expiration 2030-01-01T00:00:00.5Z
 		full[len(creds)-1] = true
 	}
 	for i, c := range creds {
@@ -982,7 +996,7 @@ func (g *gen) writeShards() error {
 func Run(cfg *common.Config) (*common.Report, error) {
 	rep := common.NewReport("C05")
 	rep.Correspondence = "Claim.Run.hmismatches: run_history / to_core_claim (Claim/Model.v) vs W3CCredential.ToCoreClaim over histories of calls sharing option objects and credentials: per call the 8 raw slot integers or the error class, and the option objects after the history"
-	rep.Rule = "option grid {\"\",index,value,bogus}^2 x updatable x version {0,1,2^32-1} x nonce {0,1,2^64-1} (288 points; complete on two credentials in the quick tier, on all in the thorough tier, sampled otherwise) x credentials (merklized; serialized with all 2^4 slot subsets; subject id none / two DIDs; expiration none / 2030 / 1969 / 0) + special credentials (unusable DIDs, null id, type taken from the top-level pair, missing named field, malformed attributes, non-string attribute, array-shaped scoped contexts, sibling types, unloadable context) + random histories of 1..6 calls over 1..3 shared option objects (or nil) and 1..3 credentials + histories in which two document loaders serve different schema documents (merklized / serialized / other assignment / malformed) at the same @context URLs and type, interleaved in both orders + 30-fold repetitions. distinct = distinct (credential specs, option objects, call list) histories; every history is non-trivial (it reaches the claim builder or one of its error points)."
+	rep.Rule = "option grid {\"\",index,value,bogus}^2 x updatable x version {0,1,2^32-1} x nonce {0,1,2^64-1} (288 points; complete on two credentials in the quick tier, on all in the thorough tier, sampled otherwise) x credentials (merklized; serialized with all 2^4 slot subsets; subject id none / two DIDs; expiration none / 2030 / 1969 / 0 / instants with fractional seconds .4 .5 .75 .999999999 written with zone offsets, also before 1970) + special credentials (unusable DIDs, null id, type taken from the top-level pair, missing named field, malformed attributes, non-string attribute, array-shaped scoped contexts, sibling types, unloadable context) + random histories of 1..6 calls over 1..3 shared option objects (or nil) and 1..3 credentials + histories in which two document loaders serve different schema documents (merklized / serialized / other assignment / malformed) at the same @context URLs and type, interleaved in both orders + 30-fold repetitions. distinct = distinct (credential specs, option objects, call list) histories; every history is non-trivial (it reaches the claim builder or one of its error points)."
 	g := &gen{cfg: cfg, rep: rep, env: credgen.NewEnv(), views: map[string]credgen.View{}, fresh: map[string]callObs{}}
 	g.envs = []*credgen.Env{g.env, credgen.NewEnv()}
 	merklize.SetDocumentLoader(g.env.Loader) // nil options carry no merklizer options: the default loader must be offline too
